@@ -465,3 +465,73 @@ func (an *Analysis) BoolUnder(pr *Pruned, assume Assume, v ssa.Value, depth int)
 	}
 	return false, false
 }
+
+// MustUnder is Must with the callee pruned under the same assumption (atoms of callees are exchange-global or
+// inherited through parameters, see AtomOf); id names the assumption for memoisation.
+func (an *Analysis) MustUnder(kind, id string, fn *ssa.Function, assume Assume, isSite func(in ssa.Instruction) bool) bool {
+	key := kind + "|" + id
+	m := an.mustSum[key]
+	if m == nil {
+		m = map[*ssa.Function]int8{}
+		an.mustSum[key] = m
+	}
+	var rec func(f *ssa.Function) bool
+	rec = func(f *ssa.Function) bool {
+		if v, ok := m[f]; ok {
+			return v == 1
+		}
+		m[f] = 0
+		if len(f.Blocks) == 0 {
+			return false
+		}
+		pr := an.Prune(f, assume)
+		r := an.MustPass(pr, nil, func(in ssa.Instruction) bool {
+			if isSite(in) {
+				return true
+			}
+			if c, ok := in.(*ssa.Call); ok {
+				cs := an.P.RepoCallees(c)
+				if len(cs) == 0 {
+					return false
+				}
+				for _, cal := range cs {
+					if !rec(cal) {
+						return false
+					}
+				}
+				return true
+			}
+			return false
+		})
+		if r.OK && r.Targets > 0 {
+			m[f] = 1
+			return true
+		}
+		return false
+	}
+	return rec(fn)
+}
+
+// KUnder builds the "is K" predicate for MustPass: a direct site, or a call whose every callee must pass K under the
+// same assumption.
+func (an *Analysis) KUnder(kind, id string, assume Assume, isSite func(in ssa.Instruction) bool) func(in ssa.Instruction) bool {
+	return func(in ssa.Instruction) bool {
+		if isSite(in) {
+			return true
+		}
+		c, ok := in.(*ssa.Call)
+		if !ok {
+			return false
+		}
+		cs := an.P.RepoCallees(c)
+		if len(cs) == 0 {
+			return false
+		}
+		for _, cal := range cs {
+			if !an.MustUnder(kind, id, cal, assume, isSite) {
+				return false
+			}
+		}
+		return true
+	}
+}
